@@ -115,6 +115,25 @@ def meshAvoidsAll (μ : Mesh) : List Item → Except Err Bool
     | .ok false => meshAvoidsAll μ rest
     | .ok true => .ok false
 
+/-- `Patt.contained_in(*patts)` (patt.py:16) with mesh-pattern targets: `all(patt.contains(self) for patt in patts)`,
+    left to right, stopping at the first `False` -/
+def containedInMeshes (it : Item) : List Mesh → Except Err Bool
+  | [] => .ok true
+  | μ :: rest =>
+    match meshContainsAll μ [it] with
+    | .error e => .error e
+    | .ok true => containedInMeshes it rest
+    | .ok false => .ok false
+
+/-- `Patt.avoided_by(*patts)` (patt.py:12) with mesh-pattern targets: `all(not patt.contains(self) for patt in patts)` -/
+def avoidedByMeshes (it : Item) : List Mesh → Except Err Bool
+  | [] => .ok true
+  | μ :: rest =>
+    match meshAvoidsAll μ [it] with
+    | .error e => .error e
+    | .ok true => avoidedByMeshes it rest
+    | .ok false => .ok false
+
 /-- full dispatch of `MeshPatt.occurrences_in` on the target type -/
 def meshOccurrencesIn (ν : Mesh) (t : Target) : Except Err (List (List Nat)) :=
   meshOccDispatch meshOccInMesh ν t
